@@ -101,4 +101,19 @@ let () =
     let res = write_stl_to now md items (Fail_at k) in
     if write_faithful md items then pres (fun n -> pint (int_of_nat n)) res else ns_class res);
   (* C07 plain view: format code 3 *)
-  Drv_plain.register_plain 3 stl_dec stl_enc read_faithful
+  Drv_plain.register_plain 3 stl_dec stl_enc read_faithful;
+  (* C07 styled conversions into STL (Model/ConvStl.v); outside the source reader's faithful domain: class only *)
+  let styled name code conv =
+    register name (fun r ->
+      let _ = rint r in let doc = rstr r in
+      let res = conv doc in
+      if (Hashtbl.find Drv_plain.plain_simple code) doc then pres pstr res else ns_class res) in
+  styled "convsrtstl" 0 convert_srt_stl;
+  styled "convvttstl" 1 convert_vtt_stl;
+  styled "convssastl" 2 convert_ssa_stl;
+  styled "convttmlstl" 4 convert_ttml_stl;
+  (* C07 styled STL sources (Model/ConvStlVtt.v, ConvStlTtml.v) *)
+  register "convstlvtt" (fun r -> let ign = rbool r in let d = rstr r in
+    let res = convert_stl_vtt ign d in if read_faithful d then pres pstr res else ns_class res);
+  register "convstlttml" (fun r -> let ign = rbool r in let d = rstr r in
+    let res = convert_stl_ttml_go ign d in if read_faithful d then pres pstr res else ns_class res)
